@@ -23,6 +23,9 @@
    in a *sorted* order (tera.rs:589-590, template.rs:158-159) is then the list order, and
    where it iterates in hash order (tera.rs:648, 698) the result is order-independent
    (collected errors are only compared by class; the lineage passes are the subject of C04).
+   The model follows /repo with the repairs D9 (render_include), D10 (include walk) and D13
+   (block lineage cycles) applied; `ev_fix_d10`/`ev_fix_d13` = false give the finalize of the
+   pinned commit.
    The graph walks are generic in the successor function, so the theorems about them hold for
    every iteration order of the include names. *)
 From Coq Require Import List NArith Bool Arith Lia.
@@ -610,8 +613,11 @@ Fixpoint run (ev : env) (s : state) (h : list call) : list (rres unit) * state :
 (* Which chunk runs, under which template's lineage (`self.template` of the VM):
      render(T)            -> main chunk of T's root ancestor (T's own if none), VM template T
                              (render_to, interpreter.rs:1015-1020)
-     Include(n)           -> the included template's OWN main chunk, VM template = it, fresh
-                             State, same component depth (render_include, 962-984)
+     Include(n)           -> like render_to: main chunk of the included template's root ancestor
+                             (its own if it extends nothing), VM template = the included
+                             template, fresh State, same component depth (render_include, after
+                             the D9 repair bb3c5f3; before it the included template's OWN main
+                             chunk ran)
      RenderBlock(b)       -> VMtemplate.block_lineage[b][0]; error when absent/empty (565-594)
      super()              -> lineage[level+1] of the active block; error outside a block or at
                              the last level (476-512)
@@ -653,6 +659,13 @@ Definition frame_chunk (s : state) (f : frame) : option chunk :=
 (* outcome of a render: the literal texts written, an error value, or out of fuel *)
 Inductive rout := RText (t : list N) | RFail (e : ekind) | ROutOfFuel.
 
+(* render_to / render_include: `tpl.parents.first()`, else the template itself *)
+Definition root_of (s : state) (u : name) : name :=
+  match mfind u (st_tpls s) with
+  | Some e => match e_parents e with r :: _ => r | [] => u end
+  | None => u
+  end.
+
 (* the frames a frame calls directly, with the component depth they run at; None = the
    instruction raises an error instead *)
 Definition callee (pre : list name) (s : state) (d : nat) (f : frame) (o : op)
@@ -661,7 +674,7 @@ Definition callee (pre : list name) (s : state) (d : nat) (f : frame) (o : op)
   | OText _ => Some None
   | OInclude n =>
       match resolve pre (st_tpls s) n with
-      | Some u => Some (Some (d, FMain u u))
+      | Some u => Some (Some (d, FMain u (root_of s u)))
       | None => None
       end
   | OBlock b =>
